@@ -2,6 +2,7 @@ package main
 
 import (
 	"fmt"
+	"os"
 	"time"
 	"go/constant"
 	"go/token"
@@ -16,7 +17,10 @@ import (
 type Value interface{}
 
 type Str struct{ b []*Term }                    // string with concrete length
-type Cell struct{ v Value }                     // memory cell
+type Cell struct {
+	v      Value
+	frozen bool // part of an object graph shared between paths (a cached parsed Program): stores are violations
+}
 type StructObj struct{ f []Obj }                // addressable struct
 type ArrayObj struct{ e []Obj }                 // addressable array
 type Obj interface{}                            // *Cell | *StructObj | *ArrayObj
@@ -36,8 +40,9 @@ type Closure struct {
 	bind []Value
 }
 type MapObj struct {
-	keys []Value
-	vals []Value
+	keys   []Value
+	vals   []Value
+	frozen bool
 }
 type Tuple []Value
 type SymPtr struct { // pointer to element idx (symbolic) of objs
@@ -88,12 +93,18 @@ type Exec struct {
 	quoted                map[*Str]bool
 	inQuoteMeta           bool
 	nvars                 int
+	failWhere             string
+	parseCache            map[string]Value
+	inCachedParse         bool
 	solver                *Solver
 	// current path
 	pc       []*Term
 	decision []int // outcomes taken so far on this path
 	prefix   []int // outcomes to replay
-	work     [][]int
+	work     []workItem
+	model     map[*Term]uint64
+	dom       map[*Term]bitset
+	entangled map[*Term]bool
 	steps    int
 	known    []knownPred
 	inputs   []*Term
@@ -119,41 +130,141 @@ func (x *Exec) choose(n int, cons func(i int) *Term) int {
 	if d < len(x.prefix) {
 		i := x.prefix[d]
 		x.decision = append(x.decision, i)
-		c := cons(i)
-		if !(c.isC && c.c == 1) {
-			x.pc = append(x.pc, c)
-		}
+		x.addPC(cons(i))
 		x.afterDecision()
 		return i
 	}
 	first := -1
+	var firstModel map[*Term]uint64
 	for i := 0; i < n; i++ {
 		c := cons(i)
-		ok := c.isC && c.c == 1
-		if !ok {
-			ok = x.solver.feasible(x.pc, c)
-		}
+		ok, m := x.feas(c)
 		if !ok {
 			continue
 		}
 		if first < 0 {
 			first = i
+			firstModel = m
 		} else {
 			alt := append(append([]int{}, x.decision...), i)
-			x.work = append(x.work, alt)
+			x.work = append(x.work, workItem{alt, m})
 		}
 	}
 	if first < 0 {
 		panic(abortPath{"no feasible outcome", true})
 	}
 	x.decision = append(x.decision, first)
-	c := cons(first)
-	if !(c.isC && c.c == 1) {
-		x.pc = append(x.pc, c)
+	if firstModel != nil {
+		x.model = firstModel
 	}
+	x.addPC(cons(first))
 	x.res.Decisions++
 	x.afterDecision()
 	return first
+}
+
+type workItem struct {
+	prefix []int
+	model  map[*Term]uint64 // a model of the path condition of this prefix, if one is known
+}
+
+var noOpt = os.Getenv("GOSYM_NOOPT") != ""
+
+// feas decides whether pc && c is satisfiable; when the solver had to be asked and said sat, its model is returned.
+// "true" is only ever answered with a witness (the current model, an exact byte-domain argument, or the solver);
+// "false" only on an empty domain intersection or a solver unsat.  Solver "unknown" counts as feasible.
+func (x *Exec) feas(c *Term) (bool, map[*Term]uint64) {
+	if c.isC {
+		return c.c != 0, nil
+	}
+	if !noOpt {
+		vs := varsOf(c)
+		if len(vs) == 1 && !vs[0].sort.FP && vs[0].sort.Width <= 8 {
+			v := vs[0]
+			if ts, ok := truthSet(c, v); ok {
+				d, have := x.dom[v]
+				if !have {
+					d = fullSet(v.sort.Width)
+				}
+				inter := d.and(&ts)
+				if inter.empty() {
+					x.res.FastDecisions++
+					return false, nil
+				}
+				if !x.entangled[v] {
+					x.res.FastDecisions++
+					return true, nil
+				}
+			}
+		}
+		if x.model != nil {
+			if val, ok := evalTerm(c, x.model); ok && val != 0 {
+				x.res.ModelDecisions++
+				return true, nil
+			}
+		}
+	}
+	sat, m, unk := x.solver.ask(x.pc, c, x.inputs)
+	if unk {
+		return true, nil
+	}
+	if !sat {
+		return false, nil
+	}
+	return true, x.modelOf(m)
+}
+
+func (x *Exec) modelOf(m map[string]uint64) map[*Term]uint64 {
+	out := make(map[*Term]uint64, len(x.inputs))
+	for _, in := range x.inputs {
+		out[in] = m[in.s]
+	}
+	return out
+}
+
+// addPC appends a constraint (already known to be feasible) to the path condition and keeps the byte
+// domains and the current model consistent with it
+func (x *Exec) addPC(c *Term) {
+	if c.isC && c.c == 1 {
+		return
+	}
+	x.pc = append(x.pc, c)
+	if noOpt {
+		return
+	}
+	vs := varsOf(c)
+	single := len(vs) == 1 && !vs[0].sort.FP && vs[0].sort.Width <= 8
+	var ts bitset
+	tsOK := false
+	if single {
+		ts, tsOK = truthSet(c, vs[0])
+	}
+	if single && tsOK {
+		v := vs[0]
+		d, have := x.dom[v]
+		if !have {
+			d = fullSet(v.sort.Width)
+		}
+		x.dom[v] = d.and(&ts)
+	} else {
+		for _, v := range vs {
+			x.entangled[v] = true
+		}
+	}
+	if x.model != nil {
+		val, ok := evalTerm(c, x.model)
+		if ok && val != 0 {
+			return
+		}
+		if single && tsOK && !x.entangled[vs[0]] {
+			d := x.dom[vs[0]]
+			if f := d.first(); f >= 0 {
+				x.model[vs[0]] = uint64(f)
+				return
+			}
+		}
+		x.model = nil
+	}
 }
 
 func hashDecisions(d []int) uint32 {
@@ -337,6 +448,9 @@ func load(o Obj) Value {
 func store(o Obj, v Value) {
 	switch o := o.(type) {
 	case *Cell:
+		if o.frozen {
+			panic(panicPath{"write to an object of a parsed Program that is shared (the Program must be immutable once parsed)"})
+		}
 		o.v = v
 	case *StructObj:
 		s := v.(StructV)
@@ -466,7 +580,16 @@ func (x *Exec) call(fn *ssa.Function, args []Value, bind []Value) (ret Value) {
 		fr.env[fv] = bind[i]
 	}
 	x.frames = append(x.frames, fr)
-	defer func() { x.frames = x.frames[:len(x.frames)-1] }()
+	defer func() {
+		if x.failWhere == "" {
+			if r := recover(); r != nil {
+				x.failWhere = x.where()
+				x.frames = x.frames[:len(x.frames)-1]
+				panic(r)
+			}
+		}
+		x.frames = x.frames[:len(x.frames)-1]
+	}()
 	if fn.Recover == nil && !hasDefer(fn) {
 		return x.run(fr, fn.Blocks[0])
 	}
@@ -1045,8 +1168,23 @@ func (x *Exec) binop(op token.Token, a, b Value, t types.Type) Value {
 			}
 			return bvcmp("bvule", bv, av)
 		}
+	case *OpaqueStr:
+		bo, ok := b.(*OpaqueStr)
+		if !ok {
+			panic(abortPath{"opaque number string compared with ordinary text", false})
+		}
+		switch op {
+		case token.EQL:
+			return x.opaqueEq(av, bo)
+		case token.NEQ:
+			return Not(x.opaqueEq(av, bo))
+		}
+		panic(abortPath{"opaque number string ordered/concatenated", false})
 	case *Str:
-		bs := b.(*Str)
+		bs, ok := b.(*Str)
+		if !ok {
+			panic(abortPath{"opaque number string compared with ordinary text", false})
+		}
 		switch op {
 		case token.EQL:
 			return x.strEq(av, bs)
@@ -1159,7 +1297,17 @@ func (x *Exec) convert(v Value, from, to types.Type) Value {
 			// string(rune): concrete only
 			t := v.(*Term)
 			if !t.isC {
-				panic(abortPath{"string(symbolic rune)", false})
+				// string(r) = utf8.AppendRune(nil, r) executed symbolically (forks on the encoding length)
+				ar := x.prog.ImportedPackage("unicode/utf8").Func("AppendRune")
+				r32 := Extend(t, 32, true)
+				if fw > 32 {
+					// values outside int32 encode as RuneError
+					if x.branch(Not(bvcmp("=", Extend(r32, fw, true), t))) {
+						return strOf("\uFFFD")
+					}
+				}
+				sl := x.call(ar, []Value{SliceV{}, r32}, nil).(SliceV)
+				return &Str{b: x.sliceBytes(sl)}
 			}
 			return strOf(string(rune(sext(t.c, fw))))
 		}
@@ -1228,6 +1376,9 @@ func (x *Exec) mapFind(m *MapObj, k Value) int {
 }
 
 func (x *Exec) mapUpdate(m *MapObj, k, v Value) {
+	if m.frozen {
+		panic(panicPath{"write to a map of a parsed Program that is shared (the Program must be immutable once parsed)"})
+	}
 	if i := x.mapFind(m, k); i >= 0 {
 		m.vals[i] = v
 		return
